@@ -7,6 +7,7 @@
 package main
 
 import (
+	"runtime"
 	"bufio"
 	"crypto/sha256"
 	"encoding/hex"
@@ -248,7 +249,18 @@ func main() {
 	rlog.SetDummyLogger()
 	o := newOut(outDir)
 	r := rand.New(rand.NewSource(seed))
-	f(o, r)
+	func() {
+		// a panic that escapes the sub-command (the implementation panicked where the harness did
+		// not expect it) is a finding with its stack as the replay, not a crashed check
+		defer func() {
+			if pv := recover(); pv != nil {
+				buf := make([]byte, 16<<10)
+				buf = buf[:runtime.Stack(buf, false)]
+				o.Violate(name+".panic", fmt.Sprintf("the implementation panicked under the harness: %v", pv), map[string]any{"stack": string(buf)})
+			}
+		}()
+		f(o, r)
+	}()
 	o.Close(rules[name])
 }
 
